@@ -46,6 +46,10 @@ def random_match_case(rng, exact=True, scope="in"):
     if len(fpi) < 2:
         fpi = [0, n - 1] if n - 1 <= maxwin else [0, min(n - 1, maxwin - 1)]
     ys = [Fraction(rng.randint(-20, 20), 4) for _ in range(n)]
+    ycont = "array"
+    if rng.random() < 0.15:                      # integer-valued y handed over as an int array / a list
+        ys = [Fraction(rng.randint(-9, 9)) for _ in range(n)]
+        ycont = rng.choice(["int", "list"])
     mode = rng.choice(["search", "search", "positions", "indices"])
     strategy = rng.choice(["closest", "closest", "lower", "higher"]) if mode == "search" else "closest"
     xref = []
@@ -90,7 +94,7 @@ def random_match_case(rng, exact=True, scope="in"):
     c = {"fn": "match", "x": [R(v) for v in xs], "y": [R(v) for v in ys], "xref": [R(v) for v in xref], "yref": [R(v) for v in yref],
          "mode": mode, "strategy": strategy, "trule": rng.choice(RULES), "rrule": rng.choice(RULES),
          "given": [] if mode == "search" else [R(xs[i]) for i in fpi] if mode == "positions" else list(fpi),
-         "exact": exact, "bounded": True, "mc": False}
+         "exact": exact, "bounded": True, "mc": False, "ycontainer": ycont}
     if mode == "indices" and rng.random() < 0.3:
         c["given"] = list(reversed(c["given"])) + c["given"][:1]          # unsorted with a duplicate: np.unique
     if exact:
@@ -114,7 +118,7 @@ def random_match_case(rng, exact=True, scope="in"):
     return c
 
 
-CASE_KEYS = ("fn", "x", "y", "xref", "yref", "mode", "strategy", "given", "trule", "rrule", "alpha", "alpha_f", "exact", "bounded", "container", "mc")
+CASE_KEYS = ("fn", "x", "y", "xref", "yref", "mode", "strategy", "given", "trule", "rrule", "alpha", "alpha_f", "exact", "bounded", "container", "ycontainer", "mc")
 
 
 def case_of_event(ev):
